@@ -2176,7 +2176,7 @@ func aliasReply(steps []aliasStep) string {
 func init() {
 	run.Register(&run.Stream{
 		Name:   "alias",
-		Rule:   "nontrivial = the call succeeded (or failed without panic) and either stored a document/index built from a non-empty container argument (catalog dump changed) or handed back at least one non-empty container (decoded document, id document/binary, distinct array, upserted-id map, raw bytes); every third case is followed by a bytes probe (alias_bytes.go): Raw/DecodeBytes/Decode of one single result, cursor positions, Distinct over arrays of arrays and binaries, index and collection listings, change stream events and resume tokens are overwritten by the caller and read again; earlier results of one object (resume tokens, cursor positions, consecutive FindOne / Distinct results, InsertedIDs / UpsertedIDs) are kept while later ones are obtained and must stay unchanged and usable; the engine-level API (Begin / Transaction.Insert, Replace, Update, Bulk / Commit) is driven with caller-owned documents whose containers and binaries are then overwritten one argument at a time (alias_repeat.go)",
+		Rule:   "nontrivial = the call succeeded (or failed without panic) and either stored a document/index built from a non-empty container argument (catalog dump changed) or handed back at least one non-empty container (decoded document, id document/binary, distinct array, upserted-id map, raw bytes); every third case is followed by a bytes probe (alias_bytes.go): Raw/DecodeBytes/Decode of one single result, cursor positions, Distinct over arrays of arrays and binaries, index and collection listings, change stream events and resume tokens are overwritten by the caller and read again; earlier results of one object (resume tokens, cursor positions, consecutive FindOne / Distinct results, InsertedIDs / UpsertedIDs) are kept while later ones are obtained and must stay unchanged and usable; the engine-level API (Begin / Transaction.Insert, Replace, Update, Bulk / Commit) is driven with caller-owned documents whose containers and binaries are then overwritten one argument at a time, and the engine-/mongokit-level listings (Transaction.ListIndexes / ListCollections / ListDatabases, Index.Config) are edited in place (alias_repeat.go)",
 		Corpus: func() []run.Case { return []run.Case{aliasSharingProbe()} },
 		Gen: func(r *gen.R, idx int) []run.Case {
 			seed := r.U64()
